@@ -71,11 +71,13 @@ pub struct Args {
     pub seed: u64,
     pub file: Option<String>,
     pub only: Option<usize>,
+    /// "i/n": only definitions with idx % n == i (child process of a sharded run)
+    pub shard: Option<(usize, usize)>,
 }
 
 fn parse_args() -> Args {
     let a: Vec<String> = std::env::args().collect();
-    let mut args = Args { cmd: a.get(1).cloned().unwrap_or_default(), prop: String::new(), tier: "quick".into(), out: String::new(), corpus: String::new(), seed: 0, file: None, only: None };
+    let mut args = Args { cmd: a.get(1).cloned().unwrap_or_default(), prop: String::new(), tier: "quick".into(), out: String::new(), corpus: String::new(), seed: 0, file: None, only: None, shard: None };
     let mut i = 2;
     while i < a.len() {
         match a[i].as_str() {
@@ -86,6 +88,10 @@ fn parse_args() -> Args {
             "--seed" => args.seed = a[i + 1].parse().unwrap_or(0),
             "--file" => args.file = Some(a[i + 1].clone()),
             "--only" => args.only = a[i + 1].parse().ok(),
+            "--shard" => {
+                let (x, y) = a[i + 1].split_once('/').expect("i/n");
+                args.shard = Some((x.parse().unwrap(), y.parse().unwrap()));
+            }
             x => panic!("unknown argument {x}"),
         }
         i += 2;
@@ -119,8 +125,13 @@ fn main() {
     let mut rep = Report::new(&args.prop, &format!("vrt [{} {}]", vrt_api::features(), if cfg!(debug_assertions) { "dev" } else { "release" }), &args.tier);
     match args.cmd.as_str() {
         "layer2" => {
-            let defs = load(&args.corpus);
-            props::layer2(&args, &defs, &mut rep);
+            if args.shard.is_some() || args.only.is_some() {
+                // child: one slice of the corpus, in-process
+                let defs: Vec<Def> = load_only(&args.corpus, args.only).into_iter().filter(|d| args.shard.map_or(true, |(i, n)| d.e.idx % n == i)).collect();
+                props::layer2(&args, &defs, &mut rep);
+            } else {
+                props::layer2_sharded(&args, &mut rep);
+            }
         }
         "readprobe" => props::read_probe(&args, &mut rep),
         "rawrun" => props::rawrun(&args, &mut rep),
